@@ -16,8 +16,8 @@ GROUPS += [
  dict(_DW, name='wrap_opus_decode_float', entry='h_opus_decode_float', functions=['opus_decode_float'], what='opus_decode_float: passes straight through'),
 ]
 META = {}
-GROUPS.append(dict(name='decode_frame_fs8000', cls='F', tu='C01_decode_frame.c', entry='h_decode_frame', dfcc=False, canary='real', expect_canaries=3,
-    defines=['-DVERIF_FS=8000', '-U__SSE__'], unwind=8, unwind_fn={'opus_decode_frame': 1930, 'smooth_fade': 25, 'h_decode_frame': 8}, timeout=5400, mem_gb=24,
+GROUPS.append(dict(name='decode_frame_fs8000', tier='thorough', cls='F', tu='C01_decode_frame.c', entry='h_decode_frame', dfcc=False, canary='real', expect_canaries=3,
+    defines=['-DVERIF_FS=8000', '-U__SSE__'], unwind=14, unwind_src=[(r'i<audiosize\*st->channels', 1924), (r'i<frame_size\*st->channels', 964), (r'i<st->channels\*F2_5', 42), (r'i<F2_5|i<overlap', 22)], timeout=7200, mem_gb=24,
     cbmc_flags=['--object-bits', '10', '--slice-formula'],
     functions=['opus_decode_frame', 'smooth_fade', 'ec_dec_init', 'ec_dec_bit_logp', 'ec_dec_uint', 'ec_tell'],
     trusted=['ASSUMED frame contracts (stubs) of silk_Decode, celt_decode_with_ec(_dred), opus_custom_decoder_ctl, silk_ResetDecoder: result ranges and write extents only; each asserts the validity of the buffers it receives'],
